@@ -240,6 +240,27 @@ pub fn after_server_frame(sim: &mut Sim, ticked: bool, t: u32, injected: bool) {
             }
         }
     }
+    // C07: a client whose protocol differs is never authorised, is notified and asked to disconnect.
+    for c in 0..sim.clients.len() {
+        if sim.prof.wrong_proto & (1 << c) == 0 || sim.prof.app.auth != 0 {
+            continue;
+        }
+        let Some(s) = sim.clients[c].sess.as_ref() else { continue };
+        let (auth, f, open, req, mm) = (s.authorized, s.hash_delivered_frame, s.ce.is_some(), s.disconnect_requested, s.mismatch_sent);
+        if auth {
+            sim.violate("C07", "mismatching_client_authorized", format!("client {c} was built with a different protocol but got authorized"));
+            continue;
+        }
+        if let Some(f) = f {
+            // The frame after delivery processes the hash; its requests are handled after this oracle ran.
+            if sim.server_frames > f + 1 && open && !req {
+                sim.violate("C07", "disconnect_not_requested", format!("client {c} presented a different protocol hash {} server frames ago and no disconnect was requested", sim.server_frames - f));
+            }
+            if sim.server_frames > f && mm == 0 && (open || req) {
+                sim.violate("C07", "mismatch_not_notified", format!("client {c} presented a different protocol hash but no ProtocolMismatch was sent to it"));
+            }
+        }
+    }
     // C06: allocation out of proportion in a frame that processed injected bytes.
     if injected {
         let bound = (1usize << 20).max(4 * sim.max_alloc_clean).max(64 * sim.inject_len);
